@@ -485,13 +485,13 @@ def r4(repo, chk):
         if any("b'content-length'" in a[0] and " == " in a[0] and a[1] for a in at) and "int(value)" in src:
             ok = True
     chk.ob("R4", "validate_headers: expected_content_length is recorded from int(value) of the content-length header", ok, "no such assignment", vh.loc(vh.node))
-    neg = [r for r in vh.raises() if any(" < 0" in a[0] or "0 > " in a[0] for a in vh.guard_atoms_x(r))]
+    neg = [r for r in vh.raises() if any(" < 0" in a[0] or "0 > " in a[0] for a in vh.lexical_guards(r))]
     conv = [c for c in vh.calls(name="int")]
     ok = bool(neg) and bool(conv) and all(any(h.type is not None and "ValueError" in norm(h.type) and any(isinstance(x, ast.Raise) and raise_class(x) == "MessageError" for x in h.body) for h in vh.enclosing_handlers(c)) for c in conv)
     chk.ob("R4", "validate_headers: a negative or non-numeric content-length raises MessageError", ok, "int() conversion / sign check not converted to MessageError", vh.loc(vh.node))
 
     chkfn = Fn(repo, f"{H3}:H3Connection._check_content_length")
-    rs = [r for r in chkfn.raises("MessageError") if any("stream.content_length != stream.expected_content_length" in a[0] and a[1] for a in chkfn.guard_atoms_x(r))]
+    rs = [r for r in chkfn.raises("MessageError") if any("stream.content_length != stream.expected_content_length" in a[0] and a[1] for a in chkfn.lexical_guards(r))]
     ok = bool(rs)
     for r in rs:
         lg = chkfn.lexical_guards(r)
